@@ -40,7 +40,7 @@ DEFAULT_UNITS = {'angular position': 'rad', 'angular speed': 'rad/s', 'angular a
 CT = [0.0, 0.5, 1.25, 1.5, 2.75]        # concrete instants (dyadic) used when the output units are not the defaults
 
 
-def build_history(env, n_inst, concrete_times=False):
+def build_history(env, n_inst, concrete_times=False, time_units=None):
     """motor(currents) - joint - spur(m,b,E) - mate - spur(m,b,E): every one of the 11 variables is recorded by some element"""
     import gearpy.units as gu
     import gearpy.mechanical_objects as mo
@@ -71,7 +71,8 @@ def build_history(env, n_inst, concrete_times=False):
             t = tprev + d
         tprev = t
         times.append(t)
-        pt.update_time(gu.Time(t, 'sec'))
+        tu = (time_units or ['sec'] * n_inst)[k]
+        pt.update_time(gu.Time(t if tu == 'sec' else t * float(si.SI['Time']['sec'] / si.SI['Time'][tu]), tu))
         for ei, el in enumerate(els):
             for var in el.time_variables.keys() if k else _advertised(el):
                 if var == 'pwm':
@@ -96,7 +97,8 @@ class Snapshot(HarnessBase):
     validate_max = 6
     max_paths = 200
 
-    def __init__(self, variables, units, n_inst=3, where='between', idx=0):
+    def __init__(self, variables, units, n_inst=3, where='between', idx=0, time_units=None):
+        self.time_units = list(time_units) if time_units else None
         self.variables = None if variables is None else tuple(variables)
         self.units = dict(units)
         self.n_inst = n_inst
@@ -104,17 +106,19 @@ class Snapshot(HarnessBase):
         self.name = 'snapshot:%d:%s:%s' % (idx, 'all' if variables is None else '+'.join(v.replace(' ', '_') for v in variables), where)
 
     def describe(self):
-        return dict(variables=self.variables, units=self.units, instants=self.n_inst, target=self.where)
+        return dict(variables=self.variables, units=self.units, instants=self.n_inst, target=self.where, time_units=self.time_units)
 
     def finding_key(self, ob, values):
         return 'snapshot:%s' % ob.family
 
     def run(self, env):
         import gearpy.units as gu
-        conc = bool(self.units)       # linearity discipline: unit factors only with a concrete time axis
-        pt, els, times, hist = build_history(env, self.n_inst, concrete_times=conc)
+        conc = bool(self.units) or bool(self.time_units)       # linearity discipline: unit factors only with a concrete time axis
+        pt, els, times, hist = build_history(env, self.n_inst, concrete_times=conc, time_units=self.time_units)
         if self.where == 'on_grid':
             tt = times[1]
+        elif self.where == 'late':
+            tt = 2.0                      # inside the last interval of a 5-instant axis
         elif conc:
             tt = 0.875
         else:
@@ -192,7 +196,7 @@ class Snapshot(HarnessBase):
                 for k in range(n - 1):
                     lo, hi = times[k], times[k + 1]
                     interp = s[k] + (s[k + 1] - s[k]) * (tt - lo) / (hi - lo)
-                    if self.units:
+                    if self.units or self.time_units:
                         cases.append(z3.And(tt >= lo, tt <= hi, close(cell, interp, 1e-9, 0.0, (s[k], s[k + 1]))))
                     else:
                         cases.append(z3.And(tt >= lo, tt <= hi, cell == interp))
@@ -343,6 +347,10 @@ def _units(rnd, full=False):
 def specs(tier, seed):
     rnd = random.Random(seed)
     cells = [('snap', None, (), 3, 'between'), ('snap', None, (), 3, 'on_grid'), ('snap', None, _units(rnd, True), 4, 'between')]
+    # a history whose instants carry different time units (what a continuation in another unit leaves behind)
+    cells.append(('snap', None, (), 5, 'late', ('sec', 'sec', 'sec', 'ms', 'ms')))
+    cells.append(('snap', ('angular speed', 'torque'), (), 5, 'between', ('min', 'min', 'sec', 'sec', 'hour')))
+    cells.append(('snap', None, (), 5, 'on_grid', ('ms', 'sec', 'min', 'hour', 'ms')))
     for v in VARS:
         cells.append(('snap', (v,), (), 3, 'between'))
         cells.append(('snap', (v,), _units(rnd, True), 3, 'between'))
@@ -371,7 +379,7 @@ def build(sp):
     hs = []
     for j, c in enumerate(cells):
         if c[0] == 'snap':
-            hs.append(Snapshot(c[1], c[2], c[3], c[4], idx=i * 100 + j))
+            hs.append(Snapshot(c[1], c[2], c[3], c[4], idx=i * 100 + j, time_units=c[5] if len(c) > 5 else None))
         else:
             hs.append(Export(c[1], c[2], c[3], idx=i * 100 + j))
     return Batch('cells:%d' % i, hs)
@@ -382,7 +390,7 @@ REQUIRED_TRIGGERS = {'quick': ('snap.columns_are_the_selected_variables', 'snap.
                                'snap.value_is_sample_or_interpolation', 'snap.error_only_outside_interval',
                                'exp.columns', 'exp.one_row_per_instant', 'exp.time', 'exp.value')}
 BOUNDS = {
-    'quick': 'a 4-element powertrain (motor with currents, fully specified spur gear, spur gear with module only, flywheel: all 11 '
+    'quick': 'histories whose instants carry mixed time units (as a continuation in another unit leaves them); a 4-element powertrain (motor with currents, fully specified spur gear, spur gear with module only, flywheel: all 11 '
              'variables are recorded by some element) with 3-4 instants whose samples, instants and the target time are all '
              'symbolic; snapshot with default variables, each single variable, 64 seeded subsets (on the grid and between '
              'instants), seeded output units; export in each of the four time units with seeded output units',
